@@ -56,11 +56,10 @@ func eParseOracles(text string) (addrs []string, tables string) {
 			reTable = wlist(wb(pattern), wb(rules.VerifFindRegexpShortcut(pattern)))
 		}
 		for _, o := range rules.VerifSplitWithEscapeCharacter(options, ',', '\\', false) {
-			eq := strings.IndexByte(o, '=')
-			if eq <= 0 {
-				continue
+			name, value := o, ""
+			if eq := strings.IndexByte(o, '='); eq > 0 {
+				name, value = o[:eq], o[eq+1:]
 			}
-			name, value := o[:eq], o[eq+1:]
 			switch name {
 			case "dnsrewrite":
 				rewrites = append(rewrites, value)
@@ -219,7 +218,7 @@ func genC04Parse(r *rng, n int, w *bufio.Writer) {
 				return "err"
 			}
 
-			return wnetrule(f)
+			return strings.ReplaceAll(wnetrule(f), " ", ",") // one token without blanks
 		})
 		addrs, tables := eParseOracles(t)
 		fmt.Fprintf(w, "c04.parse %s %d %s %s = %s ## %s\n", wb(t), id, waddrs(addrs...), tables, ans, noteStr(t))
